@@ -48,7 +48,7 @@ func runParent(r *ev.Run) {
 		}
 	}
 	// ---- (2) free-running rounds on a real node ----
-	pats := []string{"same-output", "kv-ww", "kv-rw", "kv-rr", "disjoint", "select", "play", "walk", "mixed", "balance-cold", "balance-cold"}
+	pats := []string{"same-output", "kv-ww", "kv-rw", "kv-rr", "disjoint", "select", "play", "walk", "walk-walk", "mixed", "balance-cold", "balance-cold"}
 	per := r.N(25, 600)
 	batches := r.N(1, 4)
 	for b := 0; b < batches; b++ {
